@@ -221,3 +221,76 @@ func ZZC02Programs() {
 	zzReach("program-ok")
 	zzWitness("end")
 }
+
+// zzAuditTypes: after a run, every global holds a value of the static type
+// the parser assigned to its declaration, and no any wraps an any.
+func zzAuditTypes(ev *Evaluator, prog *parser.Program, what string) {
+	for _, st := range prog.Statements {
+		var v *parser.Var
+		switch d := st.(type) {
+		case *parser.InferredDeclStmt:
+			v = d.Decl.Var
+		case *parser.TypedDeclStmt:
+			v = d.Decl.Var
+		}
+		if v == nil {
+			continue
+		}
+		val, ok := ev.global.get(v.Name)
+		if !ok {
+			continue // declaration not reached (panic / exit earlier)
+		}
+		zzAssert(zzWellFormed(val, v.Type()), "C02 audit: global "+v.Name+" holds a value of its static type "+v.Type().String()+" ("+what+")")
+	}
+}
+
+// ZZC02Audit: every program text of the other evaluator harnesses (alias
+// scenarios, determinism programs, inference literals, type-soundness
+// programs) ends in a documented way and leaves well-typed globals.
+func ZZC02Audit() {
+	var texts []string
+	for _, c := range zzAliases {
+		texts = append(texts, "a := 1\nb := 2\n"+zzC09Funcs+c.src+"print a b\n")
+	}
+	texts = append(texts, zzC08Progs...)
+	texts = append(texts, zzC02ProgramTexts()...)
+	for _, l := range zzC04InferLiterals() {
+		texts = append(texts, "x := [1]\ny := [\"s\"]\nv := "+l+"\nprint (typeof v)\nprint x y\n")
+	}
+	k := zzChoice("text", len(texts))
+	p := &zzPlat{}
+	ev := NewEvaluator(p)
+	prog, err := zzParse(ev, texts[k])
+	if err != nil {
+		zzReach("audit-rejected")
+		zzWitness("end-rejected")
+		return
+	}
+	if len(prog.Statements) >= 2 {
+		if d, ok := prog.Statements[0].(*parser.InferredDeclStmt); ok {
+			if _, isNum := d.Decl.Value.(*parser.NumLiteral); isNum && d.Decl.Var.Name == "a" {
+				zzSetNum(prog, 0, zzFloat64("a"))
+				zzSetNum(prog, 1, zzFloat64("b"))
+			}
+		}
+	}
+	rerr := ev.Eval(prog)
+	if rerr != nil {
+		zzAssert(zzAcceptableErr(rerr), "C02 audit: an accepted program ends only with a documented panic, exit or failed test")
+	}
+	zzAuditTypes(ev, prog, "text "+strconvItoa(k))
+	zzReach("audit-ok")
+	zzWitness("end")
+}
+
+func strconvItoa(k int) string {
+	if k == 0 {
+		return "0"
+	}
+	s := ""
+	for k > 0 {
+		s = string(rune('0'+k%10)) + s
+		k /= 10
+	}
+	return s
+}
